@@ -1,7 +1,7 @@
 #!/usr/bin/env python3
 """Confirm a seeded change produced by a sub-agent and keep it under /verif/seeded/<id>/.
 
-usage: import_seed.py <PROP> <A|B> "<what it needs to manifest>"
+usage: import_seed.py <PROP> <A|B> "<what it needs to manifest>" [<suffix kept under /verif/seeded>]
 
 Confirmation (all in a scratch git worktree of /repo outside /repo and /verif, removed afterwards):
   1. the demonstration passes on the clean tree (exit 0);
@@ -36,7 +36,7 @@ def main():
     src = '/tmp/seed-%s/SEED' % prop
     patch = os.path.join(src, 'patch_%s.diff' % which)
     demo = os.path.join(src, 'demo_%s.py' % which)
-    sid = '%s-%s' % (prop, which)
+    sid = '%s-%s' % (prop, sys.argv[4] if len(sys.argv) > 4 else which)
     # the sub-agent's scratch worktree (left clean by the agent) is reused for the confirmation:
     # several demonstrations assert that phylib is imported from exactly that path
     wt = '/tmp/seed-%s' % prop
